@@ -4,7 +4,7 @@ import ast
 
 from .. import AnalysisError
 from ..astutil import kwarg, src, call_name, dotted, walk_local, try_fold, ancestors, fold, NoFold
-from ..fn import FA
+from ..fn import FA, expand
 from ..permtype import OrderAnalysis, fmt, ID, N, T
 from ..poly import poly_of, NotPoly, Poly
 
@@ -62,6 +62,7 @@ def check_pad(ctx, repo, rule):
     ins = [c for c in walk_local(lp) if isinstance(c, ast.Call) and call_name(c) == 'insert']
     lowok = highok = False
     arr = None
+    step_names = set()
     for c in ins:
         if len(c.args) < 3:
             continue
@@ -75,7 +76,13 @@ def check_pad(ctx, repo, rule):
             p = poly_of(val, atom=at)
         except NotPoly:
             continue
-        step = p.coeff('bkspace', i)
+        # the step: the coefficient of <spacing> * i, whatever the spacing variable is called (the same one on both sides)
+        pairs = [(m, c_) for m, c_ in p.t.items() if len(m) == 2 and any(a == i and pw == 1 for a, pw in m) and all(pw == 1 for a, pw in m)]
+        step = None
+        if len(pairs) == 1:
+            sname = [a for a, pw in pairs[0][0] if a != i][0]
+            step_names.add(sname)
+            step = pairs[0][1]
         if try_fold(pos) == 0 and step == -1:
             base = [a for a in p.atoms() if a.endswith('[0]')]
             lowok = len(base) == 1
@@ -83,7 +90,7 @@ def check_pad(ctx, repo, rule):
         elif step == 1 and ('shape[0]' in src(pos) or 'size' in src(pos) or 'len(' in src(pos)):
             base = [a for a in p.atoms() if a.endswith('[nshortbkpt - 1]') or a.endswith('[-1]')]
             highok = len(base) == 1
-    ctx.check(rule, lowok and highok and len(ins) == 2, f, lp,
+    ctx.check(rule, lowok and highok and len(ins) == 2 and len(step_names) == 1, f, lp,
               'each iteration inserts one knot below index 0 (first - bkspace*i) and one above the end (last + bkspace*i)',
               msg='a padding iteration does not add exactly one knot on each side stepping by bkspace*i', construct='padding inserts')
     return arr, lp
@@ -96,12 +103,13 @@ def check_cover(ctx, repo, rule):
     for n in walk_local(f.node):
         if isinstance(n, ast.If) and isinstance(n.test, ast.Compare) and len(n.test.ops) == 1:
             t = n.test
-            sides = (src(t.left), src(t.comparators[0]))
+            sides = (src(expand(t.left, fa, depth=3, calls=True)), src(expand(t.comparators[0], fa, depth=3, calls=True)))
             for st in n.body:
                 if isinstance(st, ast.Assign) and isinstance(st.targets[0], ast.Subscript) and isinstance(st.targets[0].value, ast.Name):
                     tgt = st.targets[0]
-                    if src(st.value) in ('x.min()', 'x.max()') and src(st.value) in sides:
-                        reps.append((n, st, tgt.value.id, src(tgt.slice), src(st.value), isinstance(t.ops[0], (ast.Lt, ast.Gt))))
+                    vs = src(expand(st.value, fa, depth=3, calls=True))
+                    if vs in ('x.min()', 'x.max()') and vs in sides:
+                        reps.append((n, st, tgt.value.id, src(tgt.slice), vs, isinstance(t.ops[0], (ast.Lt, ast.Gt))))
     kinds = sorted(r[4] for r in reps)
     ctx.check(rule, kinds == ['x.max()', 'x.min()'], f, reps[0][0] if reps else f.node,
               'both "breakpoint does not cover x" repairs exist (x.min() into the arg-min knot, x.max() into the arg-max knot)',
@@ -526,6 +534,9 @@ def check_ict(ctx, repo, rule):
                 if not d.atoms() or not d.atoms() <= {'upper', 'lower'}:
                     continue                    # a test about something else than the row range of the interval
                 op = t.ops[0]
+                # `if <empty>: continue` states the condition under which the interval is skipped: read its negation
+                if not n.orelse and len(n.body) == 1 and isinstance(n.body[0], (ast.Continue, ast.Pass)) and isinstance(n.body[0], ast.Continue):
+                    op = {ast.Gt: ast.LtE, ast.GtE: ast.Lt, ast.Lt: ast.GtE, ast.LtE: ast.Gt}.get(type(op), type(op))()
                 # normalise to E >= 0 over the integers
                 if isinstance(op, ast.Gt):
                     E = d - Poly.const(1)
